@@ -1,4 +1,4 @@
-From Coq Require Import List Bool Arith.
+From Coq Require Import List Bool Arith Lia.
 From GW Require Import ETCaps.
 Import ListNotations.
 
@@ -12,22 +12,40 @@ Qed.
 Lemma all_envs_complete e : In e all_envs.
 Proof. destruct e as [a b c d f g]. destruct a, b, c, d, f, g; vm_compute; tauto. Qed.
 
-Lemma keys_ok_all : forallb (fun c => forallb (keys_ok c) all_envs) all_caps = true.
+(* a call makes at most 7 requests: losing "request number n >= 8" is losing nothing *)
+Lemma loss_big c e n : read_runtime_data c e (Some (8 + n)) = read_runtime_data c e None.
+Proof.
+  destruct c as [a b c d f l], e as [r1 r2 r3 r4 r5 z].
+  destruct a, b, c, d, f, r1, r2, r3, r4, r5, z; reflexivity.
+Qed.
+
+Lemma all_loss_complete c e lose : exists l, In l all_loss /\ read_runtime_data c e lose = read_runtime_data c e l.
+Proof.
+  destruct lose as [n|]. 2: { exists None. split; [left; reflexivity | reflexivity]. }
+  destruct (Nat.lt_ge_cases n 8) as [H|H].
+  - exists (Some n). split; [|reflexivity]. right.
+    do 8 (destruct n as [|n]; [cbn; tauto|]). lia.
+  - exists None. split. left; reflexivity. replace n with (8 + (n - 8)) by lia. apply loss_big.
+Qed.
+
+Lemma keys_ok_all : forallb (fun c => forallb (fun e => forallb (keys_ok c e) all_loss) all_envs) all_caps = true.
 Proof. vm_compute. reflexivity. Qed.
 
-(* whenever read_runtime_data returns, the groups of its result are exactly the groups sensors() lists right after *)
-Theorem keys_equal_sensors c e reqs keys c' : meter_level c <= 2 ->
-  read_runtime_data c e = (reqs, Some keys, c') -> same_groups keys (sensors_groups c') = true.
+(* whenever read_runtime_data returns -- whichever request may have been lost --, the groups of its result are exactly the
+   groups sensors() lists right after *)
+Theorem keys_equal_sensors c e lose reqs keys c' : meter_level c <= 2 ->
+  read_runtime_data c e lose = (reqs, Some keys, c') -> same_groups keys (sensors_groups c') = true.
 Proof.
-  intros Hl H. pose proof keys_ok_all as K. rewrite forallb_forall in K.
+  intros Hl H. destruct (all_loss_complete c e lose) as (l & Hin & Heq). rewrite Heq in H.
+  pose proof keys_ok_all as K. rewrite forallb_forall in K.
   specialize (K c (all_caps_complete c Hl)). rewrite forallb_forall in K. specialize (K e (all_envs_complete e)).
-  unfold keys_ok in K. rewrite H in K. exact K.
+  rewrite forallb_forall in K. specialize (K l Hin). unfold keys_ok in K. rewrite H in K. exact K.
 Qed.
 
 Lemma second_ok_all : forallb (fun c => forallb (fun e1 => forallb (fun e2 => negb (same_refusals e1 e2) || second_call_ok c e1 e2) all_envs) all_envs) all_caps = true.
 Proof. vm_compute. reflexivity. Qed.
 
-(* with a fixed set of refused optional blocks, the first or the second call succeeds -- from ANY capability set *)
+(* with a fixed set of refused optional blocks (and every request answered), the first or the second call succeeds -- from ANY capability set *)
 Theorem succeeds_by_second_call c e1 e2 : meter_level c <= 2 -> same_refusals e1 e2 = true -> second_call_ok c e1 e2 = true.
 Proof.
   intros Hl Hs. pose proof second_ok_all as K. rewrite forallb_forall in K.
@@ -36,12 +54,47 @@ Proof.
 Qed.
 
 (* the filter level never exceeds 2 and only grows *)
-Lemma level_monotone c e : meter_level c <= 2 -> let '(_, _, c') := read_runtime_data c e in meter_level c <= meter_level c' /\ meter_level c' <= 2.
+Lemma level_monotone c e lose : meter_level c <= 2 -> let '(_, _, c') := read_runtime_data c e lose in meter_level c <= meter_level c' /\ meter_level c' <= 2.
 Proof.
-  intros Hl. pose proof (all_caps_complete c Hl) as Hc. pose proof (all_envs_complete e) as He.
-  assert (K : forallb (fun c => forallb (fun e => let '(_, _, c') := read_runtime_data c e in (meter_level c <=? meter_level c') && (meter_level c' <=? 2)) all_envs) all_caps = true)
+  intros Hl. destruct (all_loss_complete c e lose) as (l & Hin & Heq). rewrite Heq.
+  pose proof (all_caps_complete c Hl) as Hc. pose proof (all_envs_complete e) as He.
+  assert (K : forallb (fun c => forallb (fun e => forallb (fun l => let '(_, _, c') := read_runtime_data c e l in (meter_level c <=? meter_level c') && (meter_level c' <=? 2)) all_loss) all_envs) all_caps = true)
     by (vm_compute; reflexivity).
   rewrite forallb_forall in K. specialize (K c Hc). rewrite forallb_forall in K. specialize (K e He).
-  destruct (read_runtime_data c e) as [[r k] c']. apply andb_prop in K. destruct K as [K1 K2].
+  rewrite forallb_forall in K. specialize (K l Hin).
+  destruct (read_runtime_data c e l) as [[r k] c']. apply andb_prop in K. destruct K as [K1 K2].
   split; apply Nat.leb_le; assumption.
+Qed.
+
+(* C14 at the capability level: the meter window that the flags select always covers the meter sensors kept at the filter
+   level -- preserved by every call, whatever is refused and whichever request is lost (exception paths included) *)
+Lemma consistent_all : forallb (fun c => negb (caps_consistent c) ||
+  forallb (fun e => forallb (fun l => let '(_, _, c') := read_runtime_data c e l in caps_consistent c') all_loss) all_envs) all_caps = true.
+Proof. vm_compute. reflexivity. Qed.
+
+Theorem consistent_preserved c e lose : meter_level c <= 2 -> caps_consistent c = true ->
+  let '(_, _, c') := read_runtime_data c e lose in caps_consistent c' = true.
+Proof.
+  intros Hl Hc. destruct (all_loss_complete c e lose) as (l & Hin & Heq). rewrite Heq.
+  pose proof consistent_all as K. rewrite forallb_forall in K. specialize (K c (all_caps_complete c Hl)). rewrite Hc in K. cbn [negb orb] in K.
+  rewrite forallb_forall in K. specialize (K e (all_envs_complete e)). rewrite forallb_forall in K. specialize (K l Hin).
+  destruct (read_runtime_data c e l) as [[r k] c']. exact K.
+Qed.
+
+Lemma consistent_initial two big : caps_consistent (after_device_info two big) = true.
+Proof. destruct two, big; reflexivity. Qed.
+
+(* every capability set reachable through any history of calls (any refusals, any lost requests) is consistent *)
+Fixpoint calls (c : caps) (h : list (env * option nat)) : caps :=
+  match h with [] => c | p :: tl => calls (snd (read_runtime_data c (fst p) (snd p))) tl end.
+
+Theorem consistent_always two big h : caps_consistent (calls (after_device_info two big) h) = true /\ meter_level (calls (after_device_info two big) h) <= 2.
+Proof.
+  assert (G : forall hs c, meter_level c <= 2 -> caps_consistent c = true -> caps_consistent (calls c hs) = true /\ meter_level (calls c hs) <= 2).
+  { intros hs. induction hs as [|p hs IH]; intros c Hl Hc; cbn [calls].
+    - split; assumption.
+    - destruct p as [e l]. cbn [fst snd].
+      pose proof (consistent_preserved c e l Hl Hc) as H1. pose proof (level_monotone c e l Hl) as H2.
+      destruct (read_runtime_data c e l) as [[r k] c']. cbn [snd]. apply IH; tauto. }
+  apply G. destruct two, big; cbn; lia. apply consistent_initial.
 Qed.
